@@ -5,7 +5,7 @@ from __future__ import annotations
 import ast
 
 from ..index import FuncInfo
-from ..nf import NF, Atom, Undecided, app, atoms_of, lift, nf_equal, single_atom, sym
+from ..nf import NF, Atom, Undecided, app, atoms_of, lift, nf_equal, single_atom, subst, sym
 from ..values import NONE, Cond, ListV, NoneV, Num, ObjV, OpaqueV, SliceV, StrV, TupleV, valkey
 from .c02 import call_roles, find_driver_call
 from .common import (
@@ -295,6 +295,108 @@ def check_runs(ctx, finder: FuncInfo):
     for k, what in (("in", "records a run at a True->False transition"), ("after", "records a run that is still open at the end"), ("open", "opens a run at a False->True transition")):
         if k not in seen:
             ctx.violation(rule, k, finder.loc(), f"no path {what}")
+    _runs_transitions(ctx, finder, rets)
+
+
+def _leaves(c):
+    t = c.t
+    if t[0] in ("and", "or"):
+        return _leaves(t[1]) + _leaves(t[2])
+    if t[0] == "not":
+        return _leaves(t[1])
+    return [c]
+
+
+def _var_of(c):
+    """(variable id, polarity): a leaf condition and its negation are one propositional variable"""
+    n = c.neg()
+    if n.t[0] == "not" or c.t[0] == "not":
+        base = c.t[1] if c.t[0] == "not" else c
+        return base.key, c.t[0] != "not"
+    k, nk = c.key, n.key
+    return (k, True) if k <= nk else (nk, False)
+
+
+def _eval_prop(c, asg):
+    t = c.t
+    if t[0] == "const":
+        return t[1]
+    if t[0] == "and":
+        return _eval_prop(t[1], asg) and _eval_prop(t[2], asg)
+    if t[0] == "or":
+        return _eval_prop(t[1], asg) or _eval_prop(t[2], asg)
+    if t[0] == "not":
+        return not _eval_prop(t[1], asg)
+    v, pol = _var_of(c)
+    return asg[v] if pol else (not asg[v])
+
+
+def _runs_transitions(ctx, finder, rets):
+    """the transition table of the run finder: per iteration the effect (open a run / close a run / nothing) is decided
+    by exactly (indicator[i], a run is open).  The branch conditions of every path through the loop body are read as
+    propositional formulas over the two leaf tests and evaluated on all four combinations."""
+    import itertools
+
+    rule = "C08.c RUNS"
+    table = {}
+    for p in rets:
+        loops = main_loop(p, finder.qualname)
+        if len(loops) != 1:
+            return
+        lp = loops[0]
+        lv = NF.atom(Atom("lv", lp.lid))
+        pre = lp.info["pre"]
+        svars = [n for n, v in pre.items() if isinstance(v, NoneV) or (isinstance(v, Num) and v.shape == () and v.nf is not None and v.nf.as_const() is not None)]
+        facts = [(c, v) for c, v in p.facts if not any(f"{lp.lid}.{n}.out" in repr(c) for n in svars)]
+        leaves = {}
+        for c, v in facts:
+            for l in _leaves(c):
+                vid, pol = _var_of(l)
+                txt = repr(l)
+                kind = "marker" if any(f"{lp.lid}.{n}.in" in txt for n in svars) else ("indicator" if "idx(ind" in txt else "other")
+                leaves[vid] = (kind, l, pol)
+        kinds = sorted(k for k, _, _ in leaves.values())
+        if kinds != ["indicator", "marker"]:
+            ctx.undecided(rule, "transition-table", finder.loc(), f"the loop body branches on {kinds}: expected one test of indicator[i] and one test of the start marker")
+            return
+        ind_id = next(v for v, (k, _, _) in leaves.items() if k == "indicator")
+        mk_id = next(v for v, (k, _, _) in leaves.items() if k == "marker")
+        # polarity: variable ind_id true <=> indicator[i] is truthy;  variable mk_id true <=> marker has its idle value
+        _, il, ipol = leaves[ind_id]
+        base_i = il if ipol else il.neg()  # the positive-variable form
+        ind_truthy_when_var_true = not (base_i.t[0] == "cmp" and base_i.t[1] == "==0")
+        _, ml, mpol = leaves[mk_id]
+        base_m = ml if mpol else ml.neg()
+        idle_when_var_true = None
+        txt = repr(base_m)
+        if txt.startswith("is(") and txt.rstrip(")").endswith("None"):
+            idle_when_var_true = any(isinstance(pre.get(n), NoneV) for n in svars)
+        elif base_m.t[0] == "cmp":
+            # sentinel idiom: evaluate the comparison at the pre-loop value of the marker
+            for n in svars:
+                pv = pre.get(n)
+                if isinstance(pv, Num) and pv.nf is not None:
+                    at = [x for x in atoms_of(base_m.t[2]).values() if x.kind == "lc" and x.args[0] == f"{lp.lid}.{n}.in"]
+                    if at:
+                        val = subst(base_m.t[2], {at[0].key: pv.nf}).as_const()
+                        if val is not None:
+                            idle_when_var_true = {"<0": val < 0, "<=0": val <= 0, "==0": val == 0, "!=0": val != 0}[base_m.t[1]]
+        if idle_when_var_true is None:
+            ctx.undecided(rule, "transition-table", finder.loc(), f"cannot read the start-marker test {txt[:80]}")
+            return
+        be = lp.info["body_env"]
+        inloop = loop_events(p, lp, "list_append")
+        opened = any(isinstance(be.get(n), Num) and be.get(n).nf is not None and nf_equal(be.get(n).nf, lv) for n in svars)
+        effect = "close" if inloop else ("open" if opened else "none")
+        for a_, b_ in itertools.product((True, False), repeat=2):
+            asg = {ind_id: a_, mk_id: b_}
+            if all(_eval_prop(c, asg) == v for c, v in facts):
+                truthy = a_ if ind_truthy_when_var_true else (not a_)
+                idle = b_ if idle_when_var_true else (not b_)
+                table.setdefault((truthy, idle), set()).add(effect)
+    want = {(True, True): {"open"}, (True, False): {"none"}, (False, False): {"close"}, (False, True): {"none"}}
+    show = {f"ind={k[0]},{'idle' if k[1] else 'run open'}": sorted(v) for k, v in sorted(table.items())}
+    ctx.check(table == want, rule, "transition-table", finder.loc(), "open iff (indicator[i] and no run is open); close iff (not indicator[i] and a run is open); otherwise nothing changes", found=show, expected="ind=True,idle: open | ind=True,run open: none | ind=False,run open: close | ind=False,idle: none")
 
 
 def _name_summary(tag, nout=1):
